@@ -18,7 +18,24 @@ class _Capture(logging.Handler):
 
 
 def toml_str(s):
-    return '"' + s.replace("\\", "\\\\").replace('"', '\\"') + '"'
+    out = []
+    for c in s:
+        if c == "\\":
+            out.append("\\\\")
+        elif c == '"':
+            out.append('\\"')
+        elif ord(c) < 32 or ord(c) == 127:
+            out.append("\\u%04x" % ord(c))
+        else:
+            out.append(c)
+    return '"' + "".join(out) + '"'
+
+
+def toml_key(s):
+    """quoted TOML key; the `toml` package does not unescape basic-string keys, so prefer a literal-string key"""
+    if "'" not in s and all(ord(c) >= 32 for c in s):
+        return "'" + s + "'"
+    return toml_str(s)
 
 
 class TempProject:
@@ -94,7 +111,7 @@ class TempProject:
             lines += self.extra_cfg_lines
             lines += ["", "[%s.file_patterns]" % sec]
             for path, pats in self.files.items():
-                lines.append("%s = [" % toml_str(path))
+                lines.append("%s = [" % toml_key(path))
                 for p in pats:
                     lines.append("    %s," % toml_str(p))
                 lines.append("]")
@@ -143,9 +160,14 @@ class TempProject:
                 f.write(text if isinstance(text, bytes) else text.encode("utf-8"))
         for which, behaviour in self.hooks.items():
             p = self.path("%s_hook.sh" % which)
+            watch = self.path(self.vcs_cfg.get("watch") or self.fmt)
+            os.makedirs(self.fakedir, exist_ok=True)
             with open(p, "w") as f:
-                f.write("#!/bin/sh\necho \"%s $BUMPVER_OLD_VERSION $BUMPVER_NEW_VERSION\" >> \"%s\"\nexit %d\n"
-                        % (which, self.path(".hooks.log"), 0 if behaviour == "ok" else 3))
+                f.write("#!/bin/sh\n"
+                        "h=$(sha1sum \"%s\" | cut -d' ' -f1)\n"
+                        "printf '{\"key\": \"hook\", \"which\": \"%s\", \"watch\": \"%%s\", \"argv\": []}\\n' \"$h\" >> \"%s\"\n"
+                        "echo \"%s $BUMPVER_OLD_VERSION $BUMPVER_NEW_VERSION\" >> \"%s\"\nexit %d\n"
+                        % (watch, which, os.path.join(self.fakedir, "argv.log"), which, self.path(".hooks.log"), 0 if behaviour == "ok" else 3))
             os.chmod(p, 0o755)
         if self.vcs in ("fakegit", "fakehg"):
             os.makedirs(self.path(".git" if self.vcs == "fakegit" else ".hg"), exist_ok=True)
